@@ -1,7 +1,11 @@
 /* contract of p_error_get_io_from_system enforced on the real perror.c (total, loop-free) */
+/* the real source first: its own #include <errno.h> decides which E* cases exist (see DESIGN.md section 10, item 20) */
+#include "perror.c"
 #include "env/verif.h"
 #include <errno.h>
-#include "perror.c"
+#include <stddef.h>
+#include "pmacros.h"
+#include "ptypes.h"
 PErrorIO p_error_get_io_from_system (pint err_code)
 __CPROVER_assigns ()
 __CPROVER_ensures (__CPROVER_return_value >= P_ERROR_IO_NONE && __CPROVER_return_value <= P_ERROR_IO_FAILED)
